@@ -207,6 +207,10 @@ class Row(Vector):
 	def __len__(self):
 		return len(self._raw_cols)
 
+	def fingerprint(self) -> int:
+		# A row is a view (and has no slot for a memo): hash the cells it shows now
+		return self._compute_fingerprint_full()
+
 	def __deepcopy__(self, memo):
 		# A row is a view of its table; its copy (r == r and r - r copy an operand that
 		# is the vector itself) is a plain vector of the row's cells
